@@ -527,7 +527,9 @@ def gen_invocation(rng, world_state):
     # malformed argument in some slot
     base = gen_invocation_valid_for_mutation(rng, mode, utc, cal_opt)
     step["spec"] = {"kind": "bad", "cal": cal_opt, "utc": utc,
-                    "slot": base[1]}
+                    "slot": base[1].split(":", 1)[0]}
+    if base[1].startswith("stdin:"):
+        step["stdin"] = base[1][6:] + rng.choice(["", "\n"])
     step["argv"] = base[0]
     return step
 
